@@ -248,6 +248,11 @@ def false_assertion_and_first_popped(state, logic, decls):
     return False
 
 
+def has_ite(t):
+    t = sc.strip_named(t)
+    return isinstance(t, list) and bool(t) and (t[0] == "ite" or any(has_ite(x) for x in t[1:]))
+
+
 def has_nonbool_ite(t, sig):
     if isinstance(t, list) and t:
         if t[0] == "ite" and len(t) == 4:
@@ -449,6 +454,7 @@ def with_aux_symbols(terms, sig, decls):
     ns = sig.num_sort()
     if ns:
         cands = [c for c in cands if c[0] == ns or isinstance(c[0], tuple)]
+    cands.append(("B", "Bool"))      # a Bool-sorted ite below an uninterpreted function / predicate is replaced as well
     decl2 = list(decls)
     for a in sorted(aux):
         done = False
